@@ -97,3 +97,40 @@ def total_variation_inv_alen(ice, z_a, z_b, freqs, samples=400):
         al = np.asarray(ice.attenuation_length(zs, np.asarray(freqs)))
     inv = 1.0 / al
     return np.sum(np.abs(np.diff(inv, axis=0)), axis=0) * 1.05
+
+
+# ----------------------------------------------------------------------------- C01's cancellation bound
+_ICEP = {}
+
+
+def cancellation_bound(s):
+    """C01's derived worst-case effect (radial distance, path length, tof) of the log_term_1 cancellation of the analytic
+    tracer on this solution (harness.props.c01.log1_bound: shallow closed forms evaluated at the segment endpoints at or
+    above z_uniform and at z_uniform when crossed).  For a layered path: the sum over its analytic sections, each with its
+    layer's own range (z_uniform is clipped into the layer, as depth_with_index does).  Zero for other path classes."""
+    name = type(s).__name__
+    if name == "LayeredRayTracePath":
+        tot = np.zeros(3)
+        for p in s.paths:
+            tot = tot + cancellation_bound(p)
+        return tot
+    if name != "SpecializedRayTracePath":
+        return np.zeros(3)
+    from harness.props import c01
+    cls = type(s.ice).__name__
+    if cls not in _ICEP:
+        _ICEP[cls] = c01.ice_params(None, default_of=cls)
+    icep = dict(_ICEP[cls])
+    icep["lo"], icep["hi"] = float(s.ice.valid_range[0]), float(s.ice.valid_range[1])
+    zf, zt = float(s.from_point[2]), float(s.to_point[2])
+    em = fl(s.emitted_direction)
+    beta = c01.nprof(icep, zf) * math.hypot(em[0], em[1])
+    zu = min(max(c01.z_uniform_of(icep), icep["lo"]), icep["hi"])
+    if s.direct:
+        legs = [(min(zf, zt), max(zf, zt), False)]
+    else:
+        ntop = c01.nprof(icep, icep["hi"])
+        zturn = icep["hi"] if beta <= ntop else math.log((icep["n0"] - beta) / icep["k"]) / icep["a"]
+        legs = [(zf, zturn, True), (zt, zturn, True)]
+    with np.errstate(all="ignore"):
+        return np.asarray(c01.log1_bound(icep, beta, legs, zu), dtype=float)
